@@ -21,6 +21,9 @@
 #include <unistd.h>
 #include <poll.h>
 
+#ifdef VH_COVERAGE
+extern "C" void __gcov_dump( void );
+#endif
 namespace vh {
 
 using Toks = std::vector<std::string>;
@@ -164,6 +167,9 @@ inline int run_all( std::istream& in, const CaseFn& fn, int timeout_s = 20 )
             alarm( timeout_s );
             fn( c.second, out );
             fflush( out );
+#ifdef VH_COVERAGE
+            __gcov_dump(); // tools/harness_coverage.py: _exit() would drop the counters
+#endif
             _exit( 0 );
         }
         close( po[1] );
